@@ -105,7 +105,7 @@ class Check:
         if self.pid in gen_glue.TARGETS:
             gen_errors = list(gen_errors) + gen_glue.generate(REPO, os.path.join(self.dyn, "GenGlue.v"), self.pid)
             gen_files = list(gen_files) + ["GenGlue.v"]
-            more_ties = list(more_ties) + [("TieGlue.v", gen_glue.tie_text(self.pid))]
+            more_ties = list(more_ties) + [("TieGlue.v", gen_glue.tie_text(self.pid, REPO))]
         for e in gen_errors:
             self.obligations.append((f"translate:{e.split(':')[0]}", False, e))
         ok_all = True
